@@ -108,6 +108,24 @@ CHECKS = {
             "binding, macro reachability of private helpers, once-only load markers and shared state; re-checked through program files and -e.",
             "Only import sets valid under R7RS are generated; mutation of imports, cyclic imports and export-all are not exercised.",
             "DESIGN.md section 3 C14"),
+    "C15": ("Python reference model (three-valued structural/numeric equality, bisimulation for cyclic data, dict keyed by canonical form) against value groups and hash-table histories",
+            "Runtime monitoring by model-based differential testing: groups of 4-8 members holding the same abstract value by "
+            "different computation routes (plus near misses, wrapped 0-3 levels deep) print the full matrices of equal? (core and "
+            "(scheme base)) and eqv?, and hash / SRFI 128 default-hash / string-hash / string-ci-hash; reflexivity, symmetry, "
+            "transitivity and hash coherence are checked on the observed matrices; cyclic and very deep data check termination; "
+            "60-500-operation histories on SRFI 69 and SRFI 125 tables (eq?/eqv?/equal?/string=?/string-ci=?/custom) are compared "
+            "step by step with a dict model, key pools force resizes and collisions, copies must be independent.",
+            "eqv? on NaN/constants/empty aggregates and equal? on distinct records are unspecified by R7RS and only checked for the "
+            "equivalence laws; termination is a 60 s watchdog plus a solo re-run; custom hash/equality procedures never raise.",
+            "DESIGN.md section 3 C15"),
+    "C18": ("Python models (stable sorted; list/set/Counter/dict/deque) against generated sort inputs and per-library operation histories with a checksum of every live object after each step",
+            "Runtime monitoring by model-based differential testing: SRFI 95 and SRFI 132 sorts and merges on every length 0-40 and "
+            "selected lengths to 2000 x six shapes, tagged elements exposing stability, Scheme and primitive orderings; operation "
+            "histories (<= 200 ops over 4 live objects) on SRFI 1, 133, 113, 146, (chibi iset), 101, 117, 134 with the result of every "
+            "step and a checksum of every live object compared with the model (persistence of older versions).",
+            "Orderings and predicates are consistent and never raise; result orders the SRFI leaves open are compared as sorted "
+            "lists; operations known to corrupt state are limited to a third of the histories so the rest stays observed.",
+            "DESIGN.md section 3 C18"),
     "C17": ("reference-model differential against Python's infinite two's-complement integers, expected values derived twice",
             "Runtime monitoring by model-based differential testing of every procedure of (srfi 151) and its (srfi 142)/(srfi 33) "
             "aliases on word-pattern operands of 0-6 words in both signs (lengths differing by 0-3 words, shifts and field positions "
